@@ -9,7 +9,7 @@ import time
 
 from mc.props import kcommon
 
-ALPHA = ("ins1", "bulk2", "mix", "ups", "rep", "repl", "del", "delx", "get", "mkB2", "insB2", "delB2", "clock+5", "clock+6", "clock+86403")
+ALPHA = ("ins1", "bulk2", "mix", "ups", "rep", "repl", "del", "delx", "get", "mkB2", "insB2", "delB2", "badbulk", "staleB2bulk", "clock+5", "clock+6", "clock+86403")
 BOUNDS = {
     "quick": {"sqlite": list(ALPHA), "depth": "all histories of <= 7 operations (dedup on canonical state); thorough runs to fixpoint", "initial_state": "bucket B1 with 2 single-inserted events, flushed", "real_time_trace": "insert, sleep 11.5 s of wall-clock, insert -> must be durable (validates the virtual clock against the real one)"},
     "thorough": {"plus": "clock+3600, bulk49/50/51"},
